@@ -17,7 +17,7 @@ MODELS = {
             ("MC_Radau", "MC_RadauLive.cfg", "MC_RadauLive.cfg", "liveness"), ("MC_Bdf", "MC_BdfLive.cfg", "MC_BdfLive.cfg", "liveness"),
             ("MC_Dopri", "MC_DopriLive.cfg", "MC_DopriLive.cfg", "liveness"), ("MC_Dopri", "MC_Rk23Live.cfg", "MC_Rk23Live.cfg", "liveness"),
             ("MC_Dopri", "MC_Rk4Live.cfg", "MC_Rk4Live.cfg", "liveness")],
-    "C11": [("MC_Stepper", "MC_Stepper_q.cfg", "MC_Stepper_t.cfg", "safety"), ("MC_Dopri", "MC_Dopri_q.cfg", "MC_Dopri_t.cfg", "safety"), ("MC_Dopri", "MC_Rk23_q.cfg", "MC_Rk23_q.cfg", "safety"), ("MC_Dopri", "MC_Rk4_q.cfg", "MC_Rk4_q.cfg", "safety")],
+    "C11": [("MC_Stepper", "MC_Stepper_q.cfg", "MC_Stepper_t.cfg", "safety"), ("FrontEnd", "FrontEnd.cfg", "FrontEnd.cfg", "safety"), ("MC_Dopri", "MC_Dopri_q.cfg", "MC_Dopri_t.cfg", "safety"), ("MC_Dopri", "MC_Rk23_q.cfg", "MC_Rk23_q.cfg", "safety"), ("MC_Dopri", "MC_Rk4_q.cfg", "MC_Rk4_q.cfg", "safety")],
     "C18": [("MC_Stepper", "MC_Stepper_q.cfg", "MC_Stepper_t.cfg", "safety"), ("FrontEnd", "FrontEnd.cfg", "FrontEnd.cfg", "safety"), ("MC_Dopri", "MC_Dopri_q.cfg", "MC_Dopri_t.cfg", "safety"), ("MC_Dopri", "MC_Rk23_q.cfg", "MC_Rk23_q.cfg", "safety"), ("MC_Dopri", "MC_Rk4_q.cfg", "MC_Rk4_q.cfg", "safety")],
     "C19": [("MC_Stepper", "MC_Stepper_q.cfg", "MC_Stepper_t.cfg", "safety"), ("MC_Radau", "MC_Radau_q.cfg", "MC_Radau_t.cfg", "safety"),
             ("MC_Bdf", "MC_Bdf_q.cfg", "MC_Bdf_t.cfg", "safety")],
